@@ -1,3 +1,4 @@
 //! Shared generators (proptest strategies).
+pub mod nesting;
 pub mod soup;
 pub mod util;
